@@ -622,3 +622,96 @@ func TestVerifC10(t *testing.T) {
 	c10Drive(t, o, m, c10Monitor, "c10", n)
 	o.WriteMeta("c10", m)
 }
+
+// ---------------------------------------------------------------- the master's side of the canonical state
+// "repeated manager iterations ... bring the master online, writable and to the semi-sync setting implied by the active list":
+// the real stateManager over healthy clusters whose master starts offline / read-only / with its semi-sync side off or
+// waiting for the wrong number of replicas; judged on the fake servers after the fault-free iterations.
+func c10MasterGen(o *vk.Out) mgrIn {
+	r := o.Rng
+	n := 2 + r.Intn(3)
+	in := mgrIn{Master: "h1", Iter: 4, Gap: 5, FaultAt: -1, LockLostAt: -1,
+		Cfg: mgrCfg{Failover: true, Delay: 30, Cooldown: 3600, Timeout: 300, MaxAttempts: 3, SemiSync: r.Intn(4) != 0}}
+	for i := 0; i < n; i++ {
+		in.Nodes = append(in.Nodes, mgrNode{})
+	}
+	in.Nodes[0].SS = []string{"", "off", "on", "count2", "off_count2"}[r.Intn(5)]
+	in.Nodes[0].Offline = r.Intn(4) == 0
+	in.Nodes[0].ReadOnly = r.Intn(4) == 0
+	// the published list: the master alone (it was alone for a while), everything, or missing
+	switch r.Intn(3) {
+	case 0:
+		in.Active = []string{"h1"}
+	case 1:
+		for i := 1; i <= n; i++ {
+			in.Active = append(in.Active, fmt.Sprintf("h%d", i))
+		}
+	}
+	return in
+}
+
+func c10MasterMonitor(m *vk.Meta, in mgrIn, out mgrOut) {
+	if in.Fault != nil || in.DcsFault != nil || in.LockLostAt >= 0 || len(out.Steps) < 3 {
+		return
+	}
+	last := out.Steps[len(out.Steps)-1]
+	if last.Panic != "" {
+		return
+	}
+	ms, ok := last.WorldAfter["h1"]
+	if !ok {
+		return
+	}
+	viol := func(what string) {
+		m.Violations = append(m.Violations, map[string]any{"clause": "repeated manager iterations bring the master online, writable and to the semi-sync setting implied by the active list",
+			"input": map[string]any{"master_side": in}, "detail": fmt.Sprintf("after %d iterations: %s", len(out.Steps), what), "signature": nil})
+	}
+	if ms.Offline {
+		viol("the master is still offline")
+	}
+	if ms.RO {
+		viol("the master is still read-only")
+	}
+	active := mgrActiveIn(last.TreeAfter)
+	replicas := 0
+	for _, h := range active {
+		if h != "h1" {
+			replicas++
+		}
+	}
+	if in.Cfg.SemiSync {
+		implied := min(len(active)/2, 1) // configured count 1
+		if replicas > 0 && implied > 0 {
+			if !ms.SSMaster {
+				viol(fmt.Sprintf("active list %v contains replicas but rpl_semi_sync_master_enabled is off", active))
+			} else if ms.WaitCount != implied {
+				viol(fmt.Sprintf("active list %v implies waiting for %d, the master waits for %d", active, implied, ms.WaitCount))
+			}
+		}
+	} else if ms.SSMaster {
+		viol("semi-sync is not configured but the master's side is on")
+	}
+}
+
+func TestVerifC10Master(t *testing.T) {
+	o := vk.Open()
+	m := vk.NewMeta()
+	var rp struct {
+		MasterSide *mgrIn `json:"master_side"`
+	}
+	if vk.ReplayInput(&rp) && rp.MasterSide != nil {
+		var out mgrOut
+		synctest.Test(t, func(t *testing.T) { out = mgrRun(*rp.MasterSide) })
+		c10MasterMonitor(m, *rp.MasterSide, out)
+		m.Evaluations = 1
+		o.WriteMeta("c10m", m)
+		return
+	}
+	n := 60
+	if o.Thorough() {
+		n = 600
+	}
+	mgrDrive(t, o, m, c10MasterMonitor, "c10m", n, c10MasterGen)
+	m.Rule = "4 iterations of the real stateManager over healthy 2-4 node clusters; the master starts offline / read-only / semi-sync side off, on, or waiting for 2; active list = master alone, all, or missing; judged on the fake servers after the last iteration (fault-free runs)"
+	o.WriteMeta("c10m", m)
+}
